@@ -165,6 +165,7 @@ def run_one(tmpl, case, method, frontend, leak_marker=b"SECRET outside the root"
     abs_path = os.path.join(base, "outside", "cal")
     target = render(case, abs_path)
     rec["target"] = target.replace(base, "<BASE>")
+    rec["netpath"] = target.startswith("//")     # as an href: a network-path reference
     try:
         before_out = {k: v for k, v in tree_state(base, skip_git=False).items() if not k.startswith("./data") and not k.startswith("data")}
         before_in = tree_state(root)
